@@ -722,6 +722,8 @@ def _rollback_typestate(m, r, f, g, muts, restore_calls):
                 if ((fd[t_.id] == "T") != neg_) != (kind == "t"):
                     return ()  # the flag is known on this path: the other side is infeasible
             fact = _result_fact(node.ast, kind == "t", resvars)
+            if fact is None and any(isinstance(x, ast.Name) and x.id in resvars for x in ast.walk(node.ast)):
+                fd["__opaque"] = "1"  # the result was tested in a form the rule does not interpret: later verdicts are not 'either'
             if fact is not None:
                 var, verdict = fact
                 if var in fd and fd[var] != verdict:
@@ -755,7 +757,7 @@ def _rollback_typestate(m, r, f, g, muts, restore_calls):
             continue
         seen_ret.add((n.id, phase, verdict))
         if True:
-            if phase == "dirty" and verdict == "unknown":
+            if phase == "dirty" and verdict == "unknown" and dict(facts).get("__opaque"):
                 raise AnalysisError(f"{f.qualname}: `{short(n.ast, 50)}` is reached with the bindings of the check in place; whether it hands back an accepting or a "
                                     "rejecting verdict could not be determined (the result of the check is carried in a form the rule does not interpret)")
             if phase == "dirty" and verdict != "accept":
